@@ -143,8 +143,11 @@ class Program:
     """All MIR bodies of the crates under test + type tables + native models."""
     def __init__(self, mir_files, ttables):
         self.fns = {}
+        self.const_lits = {}       # named constants with a literal initialiser: last path segment -> parsed literal
         for f in mir_files:
             self.fns.update(mp.load(f))
+            for m in re.finditer(r'^(?:const|static) ([^\s:]+(?:::[^\s:]+)*): [^=\n]+ = const ([^\n]+);$', open(f).read(), re.M):
+                self.const_lits[m.group(1).rsplit('::', 1)[-1]] = mp.parse_const(m.group(2))
         self.tt = ttables          # list of TypeTable
         self.impl_methods = {}     # (selfhead, method) -> [(trait, MirFn)]
         self.trait_defaults = {}   # (trait, method) -> MirFn
@@ -876,6 +879,14 @@ class Exec:
             return Ref(Cell(VecV([Cell(b) for b in c[1]])))
         if k == 'other':
             t = c[1]
+            last = strip_generics(t).rsplit('::', 1)[-1]
+            if re.fullmatch(r'[A-Z][A-Z0-9_]*', last):
+                # a named constant of the crate: literal initialiser, or a body of its own
+                if last in self.prog.const_lits:
+                    return self.const(self.prog.const_lits[last], fn)
+                for nm, body in self.prog.fns.items():
+                    if body.kind == 'const' and (nm == last or nm.endswith('::' + last)):
+                        return self.run_fn(body, [])
             m = re.fullmatch(r'(.+?)::(\w+)', strip_generics(t))
             if m:
                 full, variants = self.prog.enum_info(m.group(1))
